@@ -213,6 +213,54 @@ fn edit(s: &str, pos: usize, kind: u8, ch: usize) -> String {
     out
 }
 
+/// Enumerated sub-space of C08: short decimal fractions a hair above / below, on every layout (see exh_desc).
+const SHORT_DEC_LEN: u64 = 506 * 2 * (110 * 9 + 10 * 2);
+fn short_decimal_case(i: u64) -> Case {
+    let per_lay = 2 * (110 * 9 + 10 * 2);
+    let lay = (i / per_lay) as u16;
+    let l = L::from_idx(lay as usize);
+    let r = i % per_lay;
+    let big_int = r % 2 == 1;
+    let r = r / 2;
+    let (frac, variant): (String, u64) = if r < 110 * 9 {
+        let d = r / 9;
+        (if d < 10 { format!("{}", d) } else { format!("{:02}", d - 10) }, r % 9)
+    } else {
+        let q = r - 110 * 9;
+        (format!("{}", q / 2), 9 + q % 2)
+    };
+    const ZS: [usize; 4] = [20, 30, 56, 130];
+    let mut fs = frac.clone();
+    match variant {
+        0 => {}
+        1..=4 => {
+            fs.push_str(&"0".repeat(ZS[variant as usize - 1]));
+            fs.push('1');
+        }
+        5..=8 | 10 => {
+            // hair below: the fraction's last non-zero digit one lower, then nines (skipped for an all-zero fraction)
+            let z = if variant == 10 { 1100 } else { ZS[variant as usize - 5] };
+            let t = fs.trim_end_matches('0').to_string();
+            if let Some(c) = t.chars().last() {
+                let mut t2 = t.clone();
+                t2.pop();
+                t2.push(std::char::from_digit(c.to_digit(10).unwrap() - 1, 10).unwrap());
+                fs = t2;
+                fs.push_str(&"9".repeat(z));
+            } else {
+                fs.push_str(&"0".repeat(z));
+            }
+        }
+        _ => {
+            fs.push_str(&"0".repeat(1100));
+            fs.push('1');
+        }
+    }
+    let ip = if big_int { l.val(l.raw_max()).shr_floor(l.f).to_digits(10) } else { "0".to_string() };
+    let neg = l.signed && (i / 7) % 2 == 1;
+    Case { op: PARSE, lay, lay2: 10, s: format!("{}{}.{}", if neg { "-" } else { "" }, ip, fs), ..Case::default() }
+}
+
 const FIXED_MALFORMED: [&str; 16] = ["", "+", "-", ".", "+.", "-.", "1.2.3", "..", "1-", "1+2", "--1", "+-1", "0x10", "1e5", " 1", "1 "];
 
 const RADICES: [u32; 4] = [10, 2, 8, 16];
@@ -412,7 +460,7 @@ impl Engine for Text {
         match prop {
             "C08" => {
                 let digits = prop_oneof![4 => vec(0u8..16, 0..10), 2 => vec(0u8..16, 0..45), 1 => vec(0u8..16, 0..230)];
-                (layout_or(stratum), pick(4), pick(11), ing(), any::<u128>(), digits.clone(), digits, (any::<u16>(), any::<u8>(), pick(22)))
+                (layout_or(stratum), pick(4), pick(13), ing(), any::<u128>(), digits.clone(), digits, (any::<u16>(), any::<u8>(), pick(22)))
                     .prop_map(|(lay, ri, mode, ia, sel, di, df, (pos, kind, ch))| {
                         let l = L::from_idx(lay as usize);
                         let radix = if mode == 10 { 10 } else { RADICES[ri] };
@@ -427,6 +475,54 @@ impl Engine for Text {
                                 };
                                 let sign = ["", "", "-", "+"][((sel >> 70) & 3) as usize];
                                 format!("{}{}.{}", sign, ip.to_digits(10), limb_carry_fraction(sel, &df, 40))
+                            }
+                            // long literals: a decisive prefix (a rounding tie, a short number, a representable value)
+                            // followed by a long run of one digit and possibly a final digit that decides the rounding;
+                            // run lengths log-uniform up to 2^11 digits (rarely 2^13): "any number of digits"
+                            11 | 12 => {
+                                let a = pattern(l, ia);
+                                let (neg, int_s, mut frac_s) = match (sel >> 4) % 4 {
+                                    0 | 1 => {
+                                        let m = l.val(a).shl(1).add_i64(1);
+                                        let (i, f) = expand(&m.abs(), l.f + 1, radix);
+                                        (m.is_neg(), i, f)
+                                    }
+                                    2 => {
+                                        // a short number: 0..3 integer digits, 1..4 fraction digits
+                                        let ni = if (sel >> 52) & 1 == 0 { 0 } else { di.len().min(3) };
+                                        let i = digits_to_string(&di[..ni], radix, sel >> 8);
+                                        let f = digits_to_string(&df[..df.len().min(1 + (sel >> 54) as usize % 3)], radix, sel >> 40);
+                                        ((sel >> 7) & 1 == 1, if i.is_empty() { "0".into() } else { i }, if f.is_empty() { "1".into() } else { f })
+                                    }
+                                    _ => {
+                                        let av = l.val(a);
+                                        let (i, f) = expand(&av.abs(), l.f, radix);
+                                        (av.is_neg(), i, f)
+                                    }
+                                };
+                                let k = if (sel >> 12) % 16 == 0 { 11 + (sel >> 16) % 2 } else { (sel >> 16) % 11 } as u32;
+                                let z = (1usize << k) + ((sel >> 24) as usize & ((1usize << k) - 1));
+                                let top = std::char::from_digit(radix - 1, radix).unwrap();
+                                match (sel >> 40) % 5 {
+                                    // hair above: zeros, then a non-zero digit
+                                    0 | 1 => {
+                                        frac_s.push_str(&"0".repeat(z));
+                                        frac_s.push(std::char::from_digit(1 + ((sel >> 44) as u32 % (radix - 1)), radix).unwrap());
+                                    }
+                                    // hair below: last digit one lower, then top digits
+                                    2 | 3 if frac_s.chars().last().map(|c| c != '0').unwrap_or(false) => {
+                                        let c = frac_s.pop().unwrap();
+                                        frac_s.push(std::char::from_digit(c.to_digit(radix).unwrap() - 1, radix).unwrap());
+                                        frac_s.push_str(&top.to_string().repeat(z));
+                                        if (sel >> 44) & 1 == 1 {
+                                            frac_s.push_str(&digits_to_string(&df, radix, sel >> 50));
+                                        }
+                                    }
+                                    // exactly the prefix, with trailing zeros (and leading zeros on the integer part)
+                                    _ => frac_s.push_str(&"0".repeat(z)),
+                                }
+                                let lead = if (sel >> 48) & 3 == 0 { "0".repeat(z / 2) } else { String::new() };
+                                format!("{}{}{}.{}", if neg { "-" } else { "" }, lead, int_s, frac_s)
                             }
                             // grammar literal
                             0 | 1 => {
@@ -520,14 +616,15 @@ impl Engine for Text {
         match (prop, tier) {
             ("C10", Tier::Quick) => Budget { random: 300_000, per_stratum: 200, strata },
             ("C10", Tier::Thorough) => Budget { random: 30_000_000, per_stratum: 20_000, strata },
-            (_, Tier::Quick) => Budget { random: 700_000, per_stratum: 600, strata },
+            ("C09", Tier::Quick) => Budget { random: 3_000_000, per_stratum: 2_000, strata },
+            (_, Tier::Quick) => Budget { random: 1_500_000, per_stratum: 1_000, strata },
             (_, Tier::Thorough) => Budget { random: 80_000_000, per_stratum: 40_000, strata },
         }
     }
     fn exh_len(&self, prop: &str, _tier: Tier) -> u64 {
         match prop {
             // every tie of every 8-bit layout x 4 radices x 7 variants
-            "C08" => 18 * 256 * 4 * 7,
+            "C08" => 18 * 256 * 4 * 7 + SHORT_DEC_LEN,
             // every value of every 8-bit layout: default Display/Debug + all radix traits, precision none/0..=9
             "C09" => 18 * 256 * 6 * 11,
             // every value of all 8- and 16-bit layouts
@@ -539,6 +636,7 @@ impl Engine for Text {
         let lay8 = |k: u64| -> u16 { if k < 9 { k as u16 } else { (253 + k - 9) as u16 } };
         let lay16 = |k: u64| -> u16 { if k < 17 { (9 + k) as u16 } else { (262 + k - 17) as u16 } };
         match prop {
+            "C08" if i >= 18 * 256 * 4 * 7 => short_decimal_case(i - 18 * 256 * 4 * 7),
             "C08" => {
                 let a = i % 256;
                 let r = i / 256;
@@ -572,7 +670,7 @@ impl Engine for Text {
     }
     fn exh_desc(&self, prop: &str, _tier: Tier) -> String {
         match prop {
-            "C08" => "every rounding tie (k+1/2 ulp) of every value k of all 18 eight-bit layouts x radix {2,8,10,16} x 7 literal variants (exact tie, prefix, last digit +-1, hair above/below, random tail)".into(),
+            "C08" => "every rounding tie (k+1/2 ulp) of every value k of all 18 eight-bit layouts x radix {2,8,10,16} x 7 literal variants (exact tie, prefix, last digit +-1, hair above/below, random tail); every one- and two-digit decimal fraction (0.0 .. 0.9, 0.00 .. 0.99) on every one of the 506 layouts x integer part {0, the layout's largest} x {exact, hair above after 20/30/56/130 zeros, hair below with 20/30/56/130 nines} (and after 1100 for the one-digit fractions), both signs".into(),
             "C09" => "every value of all 18 eight-bit layouts x 6 formatting traits x precision {none, 0..=9}".into(),
             "C10" => "every bit pattern of all 18 eight-bit and 34 sixteen-bit layouts".into(),
             _ => String::new(),
@@ -581,7 +679,7 @@ impl Engine for Text {
     fn rule(&self, prop: &str) -> String {
         match prop {
             "C08" => "cases = (layout, radix, string): grammar literals with 0..230 digits per part, literals around rounding ties (exact tie, prefixes, last digit +-1, tie+0..01, tie-1 then 9..9, random tails, beyond the fast-path digit budgets), representable values written out with tails, strings one edit away from a valid literal, fixed malformed strings, decimal digit groups solved to sit on a limb boundary of a multi-word accumulator (h*10^p = -+k*2^p mod 2^b). Oracle: tokeniser from the stated grammar, exact rational N/radix^k, RNE(value*2^f) in big integers, then the form rules (plain Err(overflow) iff rounded value out of range, saturating bound on the literal's side, wrapping/overflowing value mod 2^w + flag; malformed => Err in every form; no unwinding). Non-trivial: valid literal whose value is not on the layout's grid, or a malformed string.".into(),
-            "C09" => "cases = (layout, value, trait in {Display, Debug, Binary, Octal, LowerHex, UpperHex}, precision none|0..=200, width none|0..=260, 72 fill/align/+/#/0 combinations); values from the operand classes plus near-short-decimal values round(d*2^f)+-2 and values whose shortest decimal form is a limb-boundary digit group. Oracle: with precision the exact string RNE at p digits; without precision a validity predicate (digits shown are the RNE at the number of digits shown, the string denotes exactly this value, exact in radix 2/8/16) and the library's own FromStr round trip; flags: metamorphic against the reference padding model (self-tested against std's integer formatting) applied to the no-flag output. Non-trivial: fraction non-zero and (default precision or precision below the digits needed).".into(),
+            "C09" => "cases = (layout, value, trait in {Display, Debug, Binary, Octal, LowerHex, UpperHex}, precision none|0..=200, width none|0..=260, 160 fill/align (fill characters of 1, 2, 3 and 4 UTF-8 bytes and ASCII fills that are format-syntax characters)/+/#/0 combinations); values from the operand classes plus near-short-decimal values round(d*2^f)+-2 and values whose shortest decimal form is a limb-boundary digit group. Oracle: with precision the exact string RNE at p digits; without precision a validity predicate (digits shown are the RNE at the number of digits shown, the string denotes exactly this value, exact in radix 2/8/16) and the library's own FromStr round trip; flags: metamorphic against the reference padding model (self-tested against std's integer formatting) applied to the no-flag output. Non-trivial: fraction non-zero and (default precision or precision below the digits needed).".into(),
             "C10" => "cases = (layout, bit pattern, 0..20 input bytes); every pattern of the 8/16-bit layouts enumerated. Oracle: width/8 little-endian bytes of the raw value: encode == encode(bits) == to_le_bytes, encoded_size == max_encoded_len == width/8, decode(encode) identity, decoding generated bytes (value from the first width/8 bytes, exactly that many consumed, failure when fewer), le/be/ne round trips and mutual reversal, from_bits/to_bits and Wrapping round trips, serde_json form exactly {\"bits\":<integer>} for F and Wrapping<F> and back; the serde data model recorded by a serializer answering is_human_readable() true and false (one record, single field bits, the integer) and played back through a self-describing deserializer. Non-trivial: bytes not all equal.".into(),
             _ => String::new(),
         }
@@ -591,7 +689,7 @@ impl Engine for Text {
     }
     fn required_classes(&self, prop: &str, _tier: Tier) -> Vec<&'static str> {
         match prop {
-            "C08" => vec!["exact-tie-even", "exact-tie-odd", "malformed", "overflow", "long-literal(>54 digits)", "negative-on-unsigned", "radix2", "radix8", "radix10", "radix16", "carry-out-of-fraction", "digit-group-on-limb-boundary(27,128)"],
+            "C08" => vec!["exact-tie-even", "exact-tie-odd", "malformed", "overflow", "long-literal(>54 digits)", "negative-on-unsigned", "radix2", "radix8", "radix10", "radix16", "carry-out-of-fraction", "digit-group-on-limb-boundary(27,128)", "very-long-literal(>1100 digits)"],
             "C09" => vec!["precision-given", "default-precision", "carry-into-integer", "tie-at-cut", "zero-fill-beyond-digits", "flags", "all-fraction-layout", "width-pads"],
             "C10" => vec!["input-too-short", "input-longer", "w128"],
             _ => vec![],
@@ -666,6 +764,9 @@ impl Engine for Text {
                         }
                         if c.s.len() > 56 {
                             ev.class("long-literal(>54 digits)");
+                        }
+                        if c.s.len() > 1100 {
+                            ev.class("very-long-literal(>1100 digits)");
                         }
                         if radix == 10 {
                             if let Some((_, fr)) = c.s.split_once('.') {
